@@ -97,6 +97,9 @@ func (x *Exec) evalSpecBuiltin(c *evalCtx, fn string, a []Val) (Val, bool, error
 	if v, ok, err := x.rtSpec(st, fn, a); ok {
 		return v, true, err
 	}
+	if v, ok, err := x.smSpec(st, fn, a); ok {
+		return v, true, err
+	}
 	declCrypto(x)
 	s := func(i int) Term { return x.bytesOf(st, a[i]) }
 	switch fn {
@@ -554,13 +557,20 @@ func init() {
 		return one(st, scalar(ch, c.ResT.At(0).Type()))
 	})
 	reg("iface:context.Context.Err", func(x *Exec, st *State, c *CallCtx) []Outcome {
-		// (only called after Done was seen closed in this code base: non-nil, of the context kind)
-		e := x.newErrAny(st, "ctx")
+		// nil or an error of the context kind; non-nil once a select on this path saw the done channel
+		// ready; nil for a context that is never cancelled
+		e := x.fresh(st, "err!ctx", SInt)
+		st.assume(Ge(e, IntT(0)))
 		for _, p := range []string{"isNotFound", "isDuplicate", "isClosed", "isTemporary"} {
-			st.assume(Not(x.errPred(p, e.T)))
+			st.assume(Not(x.errPred(p, e)))
 		}
-		st.assume(x.errPred("isCtxErr", e.T))
-		return one(st, e)
+		st.assume(Implies(Neq(e, IntT(0)), x.errPred("isCtxErr", e)))
+		x.ufun("neverCancelled", []string{SInt}, SBool)
+		st.assume(Implies(app("neverCancelled", SBool, c.Args[0].T), Eq(e, IntT(0))))
+		if took, ok := st.CtxSel[c.Args[0].T.S]; ok {
+			st.assume(Implies(took, Neq(e, IntT(0))))
+		}
+		return one(st, Val{K: VIface, T: e, GoT: errType})
 	})
 }
 
